@@ -131,6 +131,11 @@ def parse(s):
                 return postfix(('cast', e, ty.strip()))
             eat(')')
             return postfix(e)
+        if c == '[':
+            # a literal list: [a, b]
+            pos[0] += 1
+            a = args(']')
+            return postfix(('aggr', 'list', a))
         if c.isdigit() or (c == '-' and peek(2)[1:].isdigit()):
             m = re.compile(r'-?(0x[0-9a-fA-F]+|\d+)').match(s, pos[0])
             pos[0] += len(m.group(0))
@@ -173,6 +178,8 @@ def show(e):
             return show(e[2][0]) + '.' + e[1][6:]
         return '%s(%s)' % (e[1], ', '.join(show(a) for a in e[2]))
     if k == 'aggr':
+        if e[1] == 'list':
+            return '[%s]' % ', '.join(show(a) for a in e[2])
         return '%s{%s}' % (e[1], ', '.join(show(a) for a in e[2]))
     if k == 'idx':
         return '%s[%s]%s' % (show(e[1]), show(e[2]), e[3] or '')
